@@ -54,45 +54,93 @@ const (
 	cTwoContracts
 )
 
-type Source struct {
-	Class, Decl, Shape, Ver int
+type Decl struct {
+	Kind  int // 0 struct 1 resource 2 event 3 enum 4 struct interface 5 resource interface
+	Name  int
+	Cases int // enums: number of cases (1 or 2)
 }
 
-var shapeFields = []string{
+var kindCoq = []string{"KStruct", "KResource", "KEvent", "KEnum", "KSIface", "KRIface"}
+
+const kEnum = 3
+
+func (d Decl) Text() string {
+	n := fmt.Sprintf("N%d", d.Name)
+	switch d.Kind {
+	case 0:
+		return "access(all) struct " + n + " {}"
+	case 1:
+		return "access(all) resource " + n + " {}"
+	case 2:
+		return "access(all) event " + n + "()"
+	case 3:
+		if d.Cases >= 2 {
+			return "access(all) enum " + n + ": UInt8 { access(all) case x\naccess(all) case y }"
+		}
+		return "access(all) enum " + n + ": UInt8 { access(all) case x }"
+	case 4:
+		return "access(all) struct interface " + n + " {}"
+	}
+	return "access(all) resource interface " + n + " {}"
+}
+
+type Source struct {
+	Class, Decl, Fields int
+	Decls               []Decl
+	Ver                 int
+}
+
+var fieldDecls = []string{
 	"access(all) var a: Int",
 	"access(all) var a: Int\naccess(all) var b: Int",
 	"access(all) var a: String",
 	"",
-	"access(all) var a: Int\naccess(all) enum E: UInt8 { access(all) case x }",
-	"access(all) var a: Int\naccess(all) enum E: UInt8 { access(all) case x\naccess(all) case y }",
-	"access(all) var a: Int\naccess(all) struct S {}",
 }
-var shapeInit = []string{"self.a = 1", "self.a = 1\nself.b = 2", "self.a = \"s\"", "", "self.a = 1", "self.a = 1", "self.a = 1"}
+var fieldInit = []string{"self.a = 1", "self.a = 1\nself.b = 2", "self.a = \"s\"", ""}
 
-const nShapes = 7
+const nFields = 4
+
+func (s Source) body() string {
+	parts := []string{fieldDecls[s.Fields]}
+	for _, d := range s.Decls {
+		parts = append(parts, d.Text())
+	}
+	return strings.Join(parts, "\n")
+}
 
 func (s Source) Text() string {
 	name := fmt.Sprintf("C%d", s.Decl)
 	head := fmt.Sprintf("// v%d\n", s.Ver)
 	switch s.Class {
 	case cValid:
-		return head + fmt.Sprintf("access(all) contract %s {\n%s\naccess(all) fun v(): Int { return %d }\ninit() {\n%s\n}\n}", name, shapeFields[s.Shape], s.Ver, shapeInit[s.Shape])
+		return head + fmt.Sprintf("access(all) contract %s {\n%s\naccess(all) fun v(): Int { return %d }\ninit() {\n%s\n}\n}", name, s.body(), s.Ver, fieldInit[s.Fields])
 	case cInitPanics:
-		return head + fmt.Sprintf("access(all) contract %s {\n%s\naccess(all) fun v(): Int { return %d }\ninit() {\n%s\npanic(\"no\")\n}\n}", name, shapeFields[s.Shape], s.Ver, shapeInit[s.Shape])
+		return head + fmt.Sprintf("access(all) contract %s {\n%s\naccess(all) fun v(): Int { return %d }\ninit() {\n%s\npanic(\"no\")\n}\n}", name, s.body(), s.Ver, fieldInit[s.Fields])
 	case cTypeError:
-		return head + fmt.Sprintf("access(all) contract %s {\n%s\naccess(all) fun v(): Int { return \"s\" }\ninit() {\n%s\n}\n}", name, shapeFields[s.Shape], shapeInit[s.Shape])
+		return head + fmt.Sprintf("access(all) contract %s {\n%s\naccess(all) fun v(): Int { return \"s\" }\ninit() {\n%s\n}\n}", name, s.body(), fieldInit[s.Fields])
 	case cParseError:
-		return head + fmt.Sprintf("access(all) contract %s {\n%s\n", name, shapeFields[s.Shape])
+		return head + fmt.Sprintf("access(all) contract %s {\n%s\n", name, s.body())
 	case cNoContract:
-		return head + fmt.Sprintf("// no contract %s shape %d\n", name, s.Shape)
+		return head + fmt.Sprintf("// no contract %s\n", name)
 	default:
-		return head + fmt.Sprintf("access(all) contract %s {}\naccess(all) contract %sb {}\n// shape %d", name, name, s.Shape)
+		return head + fmt.Sprintf("access(all) contract %s {}\naccess(all) contract %sb {}\n", name, name)
 	}
 }
 
-func (s Source) Coq() string {
-	return fmt.Sprintf("(mkSrc %s %d %d %d)", classNames[s.Class], s.Decl, s.Shape, s.Ver)
+func declsCoq(ds []Decl) string {
+	parts := make([]string, len(ds))
+	for i, d := range ds {
+		parts[i] = fmt.Sprintf("mkD %s %d %d", kindCoq[d.Kind], d.Name, d.Cases)
+	}
+	return "[" + strings.Join(parts, "; ") + "]"
 }
+
+func (s Source) Coq() string {
+	return fmt.Sprintf("(mkSrc %s %d %d %s %d)", classNames[s.Class], s.Decl, s.Fields, declsCoq(s.Decls), s.Ver)
+}
+
+// Source is used as a map value and compared: a comparable key form
+func (s Source) key() string { return s.Coq() }
 
 // registries: code text / code hash -> source
 var byText = map[string]Source{}
@@ -497,19 +545,44 @@ type spec struct {
 	touched map[key]bool
 }
 
-func compat(o, n int) bool {
-	if o == n {
-		return true
+// independent renderings of the two verdicts (declarative, not in the shape of the Go code)
+func fieldsCompat(o, n int) bool {
+	// fields may be removed, never added or retyped
+	have := [][]string{{"a:Int"}, {"a:Int", "b:Int"}, {"a:String"}, {}}
+	for _, f := range have[n] {
+		found := false
+		for _, g := range have[o] {
+			found = found || f == g
+		}
+		if !found {
+			return false
+		}
 	}
-	switch o {
-	case 0:
-		return n == 3 || n >= 4
-	case 1:
-		return n == 0 || n >= 3
-	case 2:
-		return n == 3
-	case 4:
-		return n == 5
+	return true
+}
+
+func compatSrc(o, n Source) bool {
+	if !fieldsCompat(o.Fields, n.Fields) {
+		return false
+	}
+	byName := map[int]Decl{}
+	for _, d := range n.Decls {
+		byName[d.Name] = d
+	}
+	for _, d := range o.Decls {
+		nd, ok := byName[d.Name]
+		if !ok || nd.Kind != d.Kind || nd.Cases < d.Cases {
+			return false
+		}
+	}
+	return true
+}
+
+func declaresEnum(s Source) bool {
+	for _, d := range s.Decls {
+		if d.Kind == kEnum {
+			return true
+		}
 	}
 	return false
 }
@@ -524,7 +597,7 @@ func deployable(n int, s Source, old *Source) string {
 	if s.Decl != n {
 		return "FUser"
 	}
-	if old != nil && !compat(old.Shape, s.Shape) {
+	if old != nil && !compatSrc(*old, s) {
 		return "FDeploy"
 	}
 	return ""
@@ -572,7 +645,7 @@ func (sp *spec) step(o Op) string {
 		if !present {
 			return "RNone"
 		}
-		if cur.Shape == 4 || cur.Shape == 5 {
+		if declaresEnum(cur) {
 			return "(RFail FRemoval)"
 		}
 		delete(sp.dep, k)
@@ -629,28 +702,113 @@ type gen struct {
 	ver *int
 }
 
-func (g *gen) source(class, decl, shape int) Source {
+func (g *gen) source(class, decl, fields int, decls []Decl) Source {
 	*g.ver++
-	s := Source{class, decl, shape, *g.ver}
+	s := Source{Class: class, Decl: decl, Fields: fields, Decls: append([]Decl{}, decls...), Ver: *g.ver}
 	register(s)
 	return s
+}
+
+// random nested declarations: 0..5 declarations with distinct names, any kinds, any order
+// (so an enum may come first, in the middle or last, alone or several)
+func (g *gen) randDecls() []Decl {
+	n := []int{0, 0, 1, 1, 2, 2, 3, 3, 4, 5}[g.r.Intn(10)]
+	names := []int{1, 2, 3, 4, 5, 6}
+	for i := len(names) - 1; i > 0; i-- {
+		j := g.r.Intn(i + 1)
+		names[i], names[j] = names[j], names[i]
+	}
+	var ds []Decl
+	for i := 0; i < n; i++ {
+		k := []int{0, 0, 1, 2, 2, 3, 3, 3, 4, 5}[g.r.Intn(10)]
+		d := Decl{Kind: k, Name: names[i]}
+		if k == kEnum {
+			d.Cases = 1 + g.r.Intn(2)
+		}
+		ds = append(ds, d)
+	}
+	return ds
+}
+
+// a variation of deployed declarations: mostly compatible (same, reordered, one added, enum case
+// added), sometimes incompatible (one removed, kind changed, enum case removed)
+func (g *gen) varyDecls(old []Decl) []Decl {
+	ds := append([]Decl{}, old...)
+	switch x := g.r.Intn(100); {
+	case x < 25:
+	case x < 45: // reorder
+		for i := len(ds) - 1; i > 0; i-- {
+			j := g.r.Intn(i + 1)
+			ds[i], ds[j] = ds[j], ds[i]
+		}
+	case x < 65: // add one (front, middle or back)
+		used := map[int]bool{}
+		for _, d := range ds {
+			used[d.Name] = true
+		}
+		for n := 1; n <= 6; n++ {
+			if !used[n] {
+				k := []int{0, 1, 2, 3, 3, 4, 5}[g.r.Intn(7)]
+				d := Decl{Kind: k, Name: n}
+				if k == kEnum {
+					d.Cases = 1
+				}
+				at := g.r.Intn(len(ds) + 1)
+				ds = append(ds[:at:at], append([]Decl{d}, ds[at:]...)...)
+				break
+			}
+		}
+	case x < 75: // enum case added
+		for i := range ds {
+			if ds[i].Kind == kEnum && ds[i].Cases == 1 {
+				ds[i].Cases = 2
+				break
+			}
+		}
+	case x < 85: // one removed
+		if len(ds) > 0 {
+			at := g.r.Intn(len(ds))
+			ds = append(ds[:at:at], ds[at+1:]...)
+		}
+	case x < 93: // kind changed
+		if len(ds) > 0 {
+			at := g.r.Intn(len(ds))
+			ds[at].Kind = (ds[at].Kind + 1 + g.r.Intn(5)) % 6
+			ds[at].Cases = 0
+			if ds[at].Kind == kEnum {
+				ds[at].Cases = 1
+			}
+		}
+	default: // enum case removed
+		for i := range ds {
+			if ds[i].Kind == kEnum && ds[i].Cases == 2 {
+				ds[i].Cases = 1
+				break
+			}
+		}
+	}
+	return ds
 }
 
 func (g *gen) newSource(n int, old *Source) Source {
 	class := cValid
 	decl := n
-	shape := g.r.Intn(nShapes)
-	if old != nil && g.r.Chance(6, 10) {
-		// mostly a compatible shape
-		var ok []int
-		for s := 0; s < nShapes; s++ {
-			if compat(old.Shape, s) {
-				ok = append(ok, s)
+	fields := g.r.Intn(nFields)
+	decls := g.randDecls()
+	if old != nil && g.r.Chance(8, 10) {
+		decls = g.varyDecls(old.Decls)
+		if g.r.Chance(7, 10) {
+			// mostly compatible fields
+			var ok []int
+			for f := 0; f < nFields; f++ {
+				if fieldsCompat(old.Fields, f) {
+					ok = append(ok, f)
+				}
 			}
+			fields = ok[g.r.Intn(len(ok))]
 		}
-		shape = ok[g.r.Intn(len(ok))]
 	} else if old == nil && g.r.Chance(1, 2) {
-		shape = []int{0, 0, 1, 3}[g.r.Intn(4)]
+		fields = []int{0, 0, 1, 3}[g.r.Intn(4)]
 	}
 	switch x := g.r.Intn(100); {
 	case x < 72:
@@ -667,7 +825,7 @@ func (g *gen) newSource(n int, old *Source) Source {
 	default:
 		decl = (n + 1 + g.r.Intn(2)) % 3 // name mismatch
 	}
-	return g.source(class, decl, shape)
+	return g.source(class, decl, fields, decls)
 }
 
 func (g *gen) tx(sp *spec) []Op {
@@ -701,7 +859,7 @@ func (g *gen) tx(sp *spec) []Op {
 				old = &c
 			}
 			o = Op{K: "OUpdate", A: a, N: nm, Src: g.newSource(nm, old)}
-		case x < 56:
+		case x < 54:
 			if g.r.Chance(8, 10) {
 				pick(true)
 			}
@@ -709,23 +867,13 @@ func (g *gen) tx(sp *spec) []Op {
 			if c, ok := w.dep[key{a, nm}]; ok {
 				old = &c
 			}
-			src := g.newSource(nm, old)
-			if g.r.Chance(1, 3) && old != nil {
-				// deliberately incompatible
-				for s := 0; s < nShapes; s++ {
-					if !compat(old.Shape, s) {
-						src = g.source(cValid, nm, s)
-						break
-					}
-				}
-			}
-			o = Op{K: "OTryUpdate", A: a, N: nm, Src: src}
-		case x < 68:
-			if g.r.Chance(7, 10) {
+			o = Op{K: "OTryUpdate", A: a, N: nm, Src: g.newSource(nm, old)}
+		case x < 70:
+			if g.r.Chance(8, 10) {
 				pick(true)
 			}
 			o = Op{K: "ORemove", A: a, N: nm}
-		case x < 78:
+		case x < 79:
 			o = Op{K: "OGet", A: a, N: nm}
 		case x < 88:
 			o = Op{K: "OBorrow", A: a, N: nm}
@@ -743,27 +891,61 @@ func (g *gen) tx(sp *spec) []Op {
 	return ops
 }
 
+// declaration lists used by the verdict tables and the scenarios: enum alone, first, in the
+// middle, last, followed only by interfaces, several enums, events, resources, interfaces
+func declPool() [][]Decl {
+	e := func(n, c int) Decl { return Decl{Kind: kEnum, Name: n, Cases: c} }
+	st := func(n int) Decl { return Decl{Kind: 0, Name: n} }
+	re := func(n int) Decl { return Decl{Kind: 1, Name: n} }
+	ev := func(n int) Decl { return Decl{Kind: 2, Name: n} }
+	si := func(n int) Decl { return Decl{Kind: 4, Name: n} }
+	ri := func(n int) Decl { return Decl{Kind: 5, Name: n} }
+	return [][]Decl{
+		{},
+		{e(1, 1)},
+		{e(1, 2)},
+		{st(2)},
+		{e(1, 1), st(2)},
+		{st(2), e(1, 1)},
+		{st(2), e(1, 1), ev(3)},
+		{e(1, 1), ev(3)},
+		{e(1, 1), re(2)},
+		{re(2), si(4), e(1, 1), ri(5)},
+		{e(1, 1), st(2), e(6, 1)},
+		{e(1, 1), e(6, 2), re(2)},
+		{ev(3), st(2)},
+		{si(4), ri(5)},
+		{e(2, 1)},
+		{ev(3), e(1, 2), si(4), st(2), re(5)},
+	}
+}
+
 // ---------------------------------------------------------------- fixed scenarios
 
 func scenarios(g *gen) ([]string, map[string][][]Op) {
-	v := func(n, shape int) Source { return g.source(cValid, n, shape) }
+	v := func(n, fields int) Source { return g.source(cValid, n, fields, nil) }
+	vd := func(n int, decls []Decl) Source { return g.source(cValid, n, 0, decls) }
+	pool := declPool()
 	sc := map[string][][]Op{}
 	sc["lifecycle"] = [][]Op{
 		{{K: "OAdd", A: 1, N: 0, Src: v(0, 0)}, {K: "ONames", A: 1}, {K: "OGet", A: 1, N: 0}, {K: "OAdd", A: 2, N: 0, Src: v(0, 1)}},
 		{{K: "OBorrow", A: 1, N: 0}, {K: "OUpdate", A: 1, N: 0, Src: v(0, 3)}, {K: "OGet", A: 1, N: 0}, {K: "OBorrow", A: 1, N: 0},
-			{K: "OTryUpdate", A: 1, N: 0, Src: v(0, 0)}, {K: "OGet", A: 1, N: 0}, {K: "OTryUpdate", A: 1, N: 1, Src: v(1, 0)}, {K: "OTryUpdate", A: 1, N: 0, Src: g.source(cTypeError, 0, 3)},
-			{K: "OTryUpdate", A: 1, N: 0, Src: g.source(cParseError, 0, 3)}, {K: "OTryUpdate", A: 1, N: 0, Src: v(1, 3)}, {K: "OTryUpdate", A: 1, N: 0, Src: g.source(cInitPanics, 0, 3)}, {K: "OGet", A: 1, N: 0}},
+			{K: "OTryUpdate", A: 1, N: 0, Src: v(0, 0)}, {K: "OGet", A: 1, N: 0}, {K: "OTryUpdate", A: 1, N: 1, Src: v(1, 0)}, {K: "OTryUpdate", A: 1, N: 0, Src: g.source(cTypeError, 0, 3, nil)},
+			{K: "OTryUpdate", A: 1, N: 0, Src: g.source(cParseError, 0, 3, nil)}, {K: "OTryUpdate", A: 1, N: 0, Src: v(1, 3)}, {K: "OTryUpdate", A: 1, N: 0, Src: g.source(cInitPanics, 0, 3, nil)}, {K: "OGet", A: 1, N: 0}},
 		{{K: "OAdd", A: 1, N: 0, Src: v(0, 0)}},
 		{{K: "OUpdate", A: 1, N: 1, Src: v(1, 0)}},
 		{{K: "OUpdate", A: 2, N: 0, Src: v(0, 2)}},
 		{{K: "ORemove", A: 1, N: 0}, {K: "ORemove", A: 1, N: 0}, {K: "ONames", A: 1}, {K: "OBorrow", A: 1, N: 0}, {K: "OGet", A: 1, N: 0}},
 		{{K: "OAdd", A: 1, N: 0, Src: v(0, 1)}, {K: "OUpdate", A: 1, N: 0, Src: v(0, 0)}, {K: "OGet", A: 1, N: 0}},
 	}
+	// enum first and a struct after it; enum added by an update, in the middle of other declarations
 	sc["remove-enum"] = [][]Op{
-		{{K: "OAdd", A: 2, N: 1, Src: v(1, 4)}, {K: "OAdd", A: 2, N: 2, Src: v(2, 0)}},
+		{{K: "OAdd", A: 2, N: 1, Src: vd(1, pool[4])}, {K: "OAdd", A: 2, N: 2, Src: v(2, 0)}, {K: "OAdd", A: 1, N: 1, Src: vd(1, pool[12])}},
 		{{K: "ORemove", A: 2, N: 1}},
-		{{K: "OUpdate", A: 2, N: 2, Src: v(2, 5)}, {K: "ORemove", A: 2, N: 2}},
+		{{K: "OUpdate", A: 2, N: 2, Src: vd(2, pool[6])}, {K: "ORemove", A: 2, N: 2}},
 		{{K: "ONames", A: 2}, {K: "OUpdate", A: 2, N: 1, Src: v(1, 0)}},
+		{{K: "OTryUpdate", A: 2, N: 1, Src: vd(1, pool[10])}, {K: "OGet", A: 2, N: 1}, {K: "ORemove", A: 2, N: 1}},
+		{{K: "ORemove", A: 1, N: 1}, {K: "ONames", A: 1}},
 	}
 	sc["remove-then-add-same-tx"] = [][]Op{
 		{{K: "OAdd", A: 1, N: 2, Src: v(2, 0)}},
@@ -775,9 +957,9 @@ func scenarios(g *gen) ([]string, map[string][][]Op) {
 	sc["failed-tx-invisible"] = [][]Op{
 		{{K: "OAdd", A: 1, N: 1, Src: v(1, 0)}},
 		{{K: "OUpdate", A: 1, N: 1, Src: v(1, 3)}, {K: "OAdd", A: 1, N: 0, Src: v(0, 0)}, {K: "ORemove", A: 1, N: 1}, {K: "ONames", A: 1}, {K: "OPanic"}},
-		{{K: "OAdd", A: 2, N: 0, Src: g.source(cInitPanics, 0, 0)}},
-		{{K: "OAdd", A: 2, N: 0, Src: g.source(cNoContract, 0, 0)}},
-		{{K: "OAdd", A: 2, N: 0, Src: g.source(cTwoContracts, 0, 0)}},
+		{{K: "OAdd", A: 2, N: 0, Src: g.source(cInitPanics, 0, 0, nil)}},
+		{{K: "OAdd", A: 2, N: 0, Src: g.source(cNoContract, 0, 0, nil)}},
+		{{K: "OAdd", A: 2, N: 0, Src: g.source(cTwoContracts, 0, 0, nil)}},
 		{{K: "OAdd", A: 2, N: 0, Src: v(1, 0)}},
 	}
 	// interpreter: borrow of a contract added earlier in the same transaction
@@ -804,39 +986,91 @@ func c26(sum *lib.Summary) {
 	thorough := *tier == "thorough"
 	rng := lib.NewRng(*seed)
 	sum.Rule = "histories of contracts.add/update/tryUpdate/remove/get/borrow/names over 2 accounts x 3 names, sources of 6 classes (valid, initializer panics, " +
-		"type error, parse error, no contract, two contracts) plus name mismatch, 7 declaration shapes (fields added/removed/retyped, enum, enum case added, nested struct) giving " +
+		"type error, parse error, no contract, two contracts) plus name mismatch, 4 field variants and nested declaration lists (struct/resource/event/enum/interfaces in varied order, enum cases) giving " +
 		"compatible and incompatible updates; transactions (some failing) each followed by an observing script reading names/get/borrow of every account and name; both engines; " +
 		"per-operation results, AccountContractAdded/Updated/Removed events and the host code map are compared with the Coq model and with an independent Go specification; " +
-		"the 7x7 update-validation table is compared with the real validator. non-trivial history = at least one successful add, update and remove, a failing tryUpdate " +
+		"update-validation verdicts (all pairs of a pool of field variants and nested-declaration lists) and removal verdicts (enum alone/first/middle/last, several enums, events, resources, interfaces, random orders) are compared with the real validator and removeContract. non-trivial history = at least one successful add, update and remove, a failing tryUpdate " +
 		"and a failed transaction; distinct = distinct operation sequences"
 
-	// update-validation table against the real validator
+	// update-validation and removal verdicts against the real validator / removeContract
 	tw := &lib.CaseWriter{Dir: *dir, Prefix: "cases_C26_compat", Header: "From CV Require Import C26.Cases.",
-		ElemType: "Z * Z * bool", CheckFn: "check_compat", PerFile: 800}
+		ElemType: "source * source * bool", CheckFn: "check_compat", PerFile: 400}
+	rw := &lib.CaseWriter{Dir: *dir, Prefix: "cases_C26_remove", Header: "From CV Require Import C26.Cases.",
+		ElemType: "source * bool", CheckFn: "check_remove", PerFile: 400}
 	ver := 0
 	g0 := &gen{r: rng, ver: &ver}
-	for _, vm := range []bool{false, true} {
-		for old := 0; old < nShapes; old++ {
-			for nw := 0; nw < nShapes; nw++ {
-				h := lib.NewHost()
-				t1 := runTx(h, vm, []Op{{K: "OAdd", A: 1, N: 0, Src: g0.source(cValid, 0, old)}}, false)
-				t2 := runTx(h, vm, []Op{{K: "OUpdate", A: 1, N: 0, Src: g0.source(cValid, 0, nw)}}, false)
-				sum.Evaluations++
-				sum.Count("compat-table")
-				if t1.Bad != "" || t1.Failed || t2.Bad != "" {
-					sum.Fail("unexpected-outcome", fmt.Sprintf("compat table %d->%d (vm=%v): %s %s", old, nw, vm, t1.Bad, t2.Bad), map[string]any{"old": old, "new": nw, "vm": vm})
-					continue
-				}
-				obs := "true"
-				if t2.Failed {
-					obs = "false"
-				}
-				if t2.Failed != !compat(old, nw) {
-					sum.Fail("compat-table", fmt.Sprintf("update validation of shape %d -> %d (vm=%v): accepted=%v, Go oracle table says %v", old, nw, vm, !t2.Failed, compat(old, nw)),
-						map[string]any{"old_shape": shapeFields[old], "new_shape": shapeFields[nw], "vm": vm, "accepted": !t2.Failed})
-				}
-				tw.Add(fmt.Sprintf("(%d, %d, %s)", old, nw, obs), map[string]any{"table": "compat", "old": old, "new": nw, "vm": vm, "accepted": !t2.Failed})
+	type shapeT struct {
+		f int
+		d []Decl
+	}
+	var shapes []shapeT
+	for f := 0; f < nFields; f++ {
+		shapes = append(shapes, shapeT{f, nil})
+	}
+	for _, d := range declPool()[1:] {
+		shapes = append(shapes, shapeT{0, d})
+	}
+	// random declaration lists as well (order and position of enums vary with the seed)
+	nrand := 12
+	if thorough {
+		nrand = 60
+	}
+	for i := 0; i < nrand; i++ {
+		shapes = append(shapes, shapeT{0, g0.randDecls()})
+	}
+	for k, sh := range shapes {
+		for _, vm := range []bool{false, true} {
+			h := lib.NewHost()
+			src := g0.source(cValid, 0, sh.f, sh.d)
+			t1 := runTx(h, vm, []Op{{K: "OAdd", A: 1, N: 0, Src: src}}, false)
+			t2 := runTx(h, vm, []Op{{K: "ORemove", A: 1, N: 0}}, false)
+			sum.Evaluations++
+			sum.Count("remove-table")
+			refused := t2.Failed && len(t2.Results) == 1 && t2.Results[0] == "(RFail FRemoval)"
+			removed := !t2.Failed && len(t2.Results) == 1 && strings.HasPrefix(t2.Results[0], "(RCode")
+			if t1.Bad != "" || t1.Failed || t2.Bad != "" || (!refused && !removed) {
+				sum.Fail("unexpected-outcome", fmt.Sprintf("removal of shape %d (vm=%v): add %v %s, remove %v %s", k, vm, t1.Results, t1.Bad, t2.Results, t2.Bad),
+					map[string]any{"source": src.Text(), "vm": vm})
+				continue
 			}
+			if refused != declaresEnum(src) {
+				sum.Fail("remove-verdict", fmt.Sprintf("contracts.remove (vm=%v) refused=%v for a contract that declares enum=%v", vm, refused, declaresEnum(src)),
+					map[string]any{"source": src.Text(), "vm": vm, "refused": refused, "declares_enum": declaresEnum(src)})
+			}
+			rw.Add(fmt.Sprintf("(%s, %s)", src.Coq(), map[bool]string{true: "true", false: "false"}[refused]),
+				map[string]any{"table": "remove", "source": src.Text(), "vm": vm, "refused": refused})
+		}
+	}
+	rw.Close()
+	npool := nFields + len(declPool()) - 1 + 4 // fixed shapes and a few random ones
+	if thorough {
+		npool = len(shapes)
+	}
+	for i := 0; i < npool; i++ {
+		for j := 0; j < npool; j++ {
+			vm := (i+j)%3 == 0 // the validator is shared code: a third of the pairs on the VM
+			h := lib.NewHost()
+			so := g0.source(cValid, 0, shapes[i].f, shapes[i].d)
+			sn := g0.source(cValid, 0, shapes[j].f, shapes[j].d)
+			t1 := runTx(h, vm, []Op{{K: "OAdd", A: 1, N: 0, Src: so}}, false)
+			t2 := runTx(h, vm, []Op{{K: "OUpdate", A: 1, N: 0, Src: sn}}, false)
+			sum.Evaluations++
+			sum.Count("compat-table")
+			if t1.Bad != "" || t1.Failed || t2.Bad != "" {
+				sum.Fail("unexpected-outcome", fmt.Sprintf("compat table %d->%d (vm=%v): %s %s", i, j, vm, t1.Bad, t2.Bad),
+					map[string]any{"old": so.Text(), "new": sn.Text(), "vm": vm})
+				continue
+			}
+			obs := "true"
+			if t2.Failed {
+				obs = "false"
+			}
+			if t2.Failed != !compatSrc(so, sn) {
+				sum.Fail("compat-table", fmt.Sprintf("update validation (vm=%v): accepted=%v, Go oracle says %v", vm, !t2.Failed, compatSrc(so, sn)),
+					map[string]any{"old": so.Text(), "new": sn.Text(), "vm": vm, "accepted": !t2.Failed})
+			}
+			tw.Add(fmt.Sprintf("(%s, %s, %s)", so.Coq(), sn.Coq(), obs),
+				map[string]any{"table": "compat", "old": so.Text(), "new": sn.Text(), "vm": vm, "accepted": !t2.Failed})
 		}
 	}
 	tw.Close()
@@ -979,5 +1213,5 @@ func c26(sum *lib.Summary) {
 		})
 	}
 	cw.Close()
-	sum.CaseFiles = append(tw.Files, cw.Files...)
+	sum.CaseFiles = append(append(tw.Files, rw.Files...), cw.Files...)
 }
